@@ -791,6 +791,11 @@ class Evaluator:
                         continue
                     if after and isinstance(stn, ast.Assign) and len(stn.targets) == 1 and isinstance(stn.targets[0], ast.Subscript) and isinstance(stn.targets[0].value, ast.Name) and stn.targets[0].value.id == name:
                         self.stmt(stn, st0)
+                    elif after and isinstance(stn, ast.For) and isinstance(v, (Seq, DictV)) and any(
+                            (isinstance(x, ast.Call) and isinstance(x.func, ast.Attribute) and x.func.attr in ("append", "extend", "update", "setdefault") and isinstance(x.func.value, ast.Name) and x.func.value.id == name)
+                            or (isinstance(x, ast.Subscript) and isinstance(x.ctx, ast.Store) and isinstance(x.value, ast.Name) and x.value.id == name) for x in ast.walk(stn)):
+                        # a module-level loop that fills the table at import time
+                        self.stmt(stn, st0)
                     elif after and isinstance(stn, (ast.Expr, ast.Assign)) and isinstance(stn.value, ast.Call) and self._call_fills_global(m, stn.value, name):
                         # registration helpers called at import time:  register("second", ...)  with  NAME[key] = ...  inside
                         if isinstance(stn, ast.Expr):
